@@ -1211,6 +1211,9 @@ func build(tier string) []*vkit.Scenario {
 		default:
 			p = 0
 		}
+		if hasReached(l) && len(l) == 2 && l[0].isSet() && l[1].isSet() && l[0].kind != l[1].kind {
+			p = 1 // an already reached deadline across directions: SetDeadline arms two timers
+		}
 		if thorough {
 			switch {
 			case len(l) <= 2:
@@ -1367,7 +1370,7 @@ func build(tier string) []*vkit.Scenario {
 func main() {
 	vkit.Main(&vkit.Spec{
 		Property: "C16", Level: "model_checking",
-		Rule: "core: one scenario = epoll mode x operation list of thread A (length <= 3 quick / <= 4 thorough) over SetReadDeadline/SetWriteDeadline/SetDeadline(now+5s | now+9s | zero time; plus lists with the current instant and a past instant for each setter: alone, after a future deadline of the same direction, across directions, after time passed, followed by renewal / clear / Write / Close, behind a backlog - thorough: every list of length <= 2 over the extended alphabet), Write(1) / Writev(2x1) (fit into the socket, K=3), Write(5) (leaves a backlog of 2), peer drain, 3 s sleep, Close; lists are pruned only where the last operation cannot matter (a clear with nothing to clear, a write without a write deadline, a drain with nothing sent, anything but one deadline set after Close, a trailing sleep); plus 8 lists that end in a close by nbio itself (write overflow, EPIPE after a peer reset); x origin of the connection: every list on an added connection, 22 representative lists (one expiry per kind of deadline, set-clear-set, renewal, Write that empties / leaves a backlog, drain, Close; thorough: every list of length <= 2) on connections from DialAsync / DialAsyncTimeout(7 s) whose connect is completed by a network thread that runs concurrently with the dial call (thorough: also a synchronous connect), 4 lists on the connection left by a dial timeout that fired. A clock thread fires the earliest virtual timer; every placement of a firing relative to A, the poller and the timer callbacks within the preemption bound (listed per scenario; free choices - which thread runs when one blocks or ends, which of two timers with equal deadlines fires - are always complete). keepalive: one scenario = HTTP | WebSocket x epoll mode x list of steps (seconds slept before each unit, drawn from values below, equal to and above the keep-alive time; kind of unit: HTTP complete request | POST head | POST body, WebSocket text | binary | ping | pong | first / middle / last fragment of a message; the gap lists with the default kind - request, text message - up to length 2, every other kind alone and in the listed combinations; 'calm' scenarios - timers fire only when every thread is blocked - cover every ordered pair (thorough: triple) of WebSocket kinds with gaps that make each unit depend on its predecessor's renewal, fragmented messages with control frames in between and HTTP sequences of up to 4 units) x handler duration (instantaneous, or 3 of the 7 s / 2 of the 4 s of virtual time spent inside the HTTP handler / the WebSocket message handler, during which the clock runs); firings while no exchange is in flight are placed by the scheduler, firings in the middle of an exchange at three offered points (after the client's write, at handler entry, after the upgrade) within the deviation bound. non-trivial = at least one deadline timer of the connection fired in the scenario",
+		Rule: "core: one scenario = epoll mode x operation list of thread A (length <= 3 quick / <= 4 thorough) over SetReadDeadline/SetWriteDeadline/SetDeadline(now+5s | now+9s | zero time; plus lists with the current instant and a past instant for each setter: alone, after a future deadline of the same direction, across directions, after time passed, followed by renewal / clear / Write / Close, behind a backlog - thorough: every list of length <= 2 over the extended alphabet), Write(1) / Writev(2x1) (fit into the socket, K=3), Write(5) (leaves a backlog of 2), peer drain, 3 s sleep, Close; lists are pruned only where the last operation cannot matter (a clear with nothing to clear, a write without a write deadline, a drain with nothing sent, anything but one deadline set after Close, a trailing sleep); plus 8 lists that end in a close by nbio itself (write overflow, EPIPE after a peer reset); x origin of the connection: every list on an added connection, 22 representative lists (one expiry per kind of deadline, set-clear-set, renewal, Write that empties / leaves a backlog, drain, Close; thorough: every list of length <= 2) on connections from DialAsync / DialAsyncTimeout(7 s) whose connect is completed by a network thread that runs concurrently with the dial call (thorough: also a synchronous connect), 4 lists on the connection left by a dial timeout that fired. A clock thread fires the earliest virtual timer; every placement of a firing relative to A, the poller and the timer callbacks within the preemption bound (listed per scenario; free choices - which thread runs when one blocks or ends, which of two timers with equal deadlines fires - are always complete). keepalive: one scenario = HTTP | WebSocket x epoll mode x list of steps (seconds slept before each unit, drawn from values below, equal to and above the keep-alive time; kind of unit: HTTP complete request | POST head | POST body, WebSocket text | binary | ping | pong | first / middle / last fragment of a message; the gap lists with the default kind - request, text message - up to length 2, every other kind alone and in the listed combinations; 'calm' scenarios - timers fire only when every thread is blocked - cover every ordered pair (thorough: triple) of WebSocket kinds with gaps that make each unit depend on its predecessor's renewal, fragmented messages with control frames in between and HTTP sequences of up to 4 units; Upgrader.KeepaliveTime 4 s by default and 0 (disabled) | 7 | 9 s in dedicated lists with gaps below and beyond the HTTP keep-alive time; 'early' scenarios put the first request into the socket before AddConnNonTLSNonBlocking is called) x handler duration (instantaneous, or 3 of the 7 s / 2 of the 4 s of virtual time spent inside the HTTP handler / the WebSocket message handler, during which the clock runs); firings while no exchange is in flight are placed by the scheduler, firings in the middle of an exchange at three offered points (after the client's write, at handler entry, after the upgrade) within the deviation bound. non-trivial = at least one deadline timer of the connection fired in the scenario",
 		Assumptions: []string{
 			"virtual time: the clock only moves when a timer fires and then jumps exactly to that timer's deadline; nbio reads it through time.Now/time.Until/AfterFunc/Reset. 'Never early' and 'at the deadline' are judged on the virtual time of the FIRING (the instant the runtime starts the AfterFunc callback), not on the time of the close notification, which nbio delivers asynchronously",
 			"reference model per direction: deadline = last non-zero Set*Deadline that returned; none after a zero-time set, after Close, after any close notification, and (write direction) after a Write/Writev call that returned with an empty backlog. A backlog emptied later by the poller's flush does not clear the write deadline in the model (SetWriteDeadline's doc comment), but a connection that is still open at the end in that situation would not be reported either",
@@ -1381,6 +1384,8 @@ func main() {
 			"origin of the connection: for a connection from DialAsync/DialAsyncTimeout the reference model starts when the dial callback has reported success and the dial call has returned: from then on no deadline exists until one is set, no virtual timer may be armed (stale-dial-timer: armed=before-connect - the completion did not clear the dial timeout; armed=after-connect - the dial timeout was armed after the completion had found nothing to clear), and a close notification that carries ErrDialTimeout is a wrong error whatever expired (wrong-timeout-error got=dial). A dial timeout that fires while the connect is still in progress is legitimate (callback and notification count are C03's); afterwards the connection is closed and the operations must arm nothing",
 			"keep-alive, what counts as activity (read off the unchanged code, the statement only says 'idle' / 'silent'): every unit the server HANDLES renews - the end of each HTTP response (flushResponse), the upgrade, and every WebSocket message passed to handleWsMessage: complete text/binary messages (for a fragmented message: when its last fragment arrived) and every control frame (ping, pong), whose handlers run through the same deferred renewal. Inbound bytes that complete nothing (a first or middle fragment, a POST head without its body) renew nothing in the code; whether such a connection is still 'idle/silent' is left open by the statement, so for them the model accepts a firing anywhere in [last handled unit + keep-alive, last inbound byte + keep-alive] and still requires the close (counters fire_after_partial_unit_*)",
 			"a deadline that is already reached when it is set (SetXDeadline(time.Now()), an instant in the past; any non-zero time.Time) is a deadline, not a clear: read off the unchanged code, every setter tests t.IsZero() only and arms a timer for max(0, time.Until(t)), so the connection is closed 'at once' with the corresponding timeout error; in the model such a deadline lies at the instant it was armed ([begin, end] of the setting call), it replaces a pending later deadline of the same direction, a connection that stays open is reported as deadline-not-enforced ... reached-when-set, and a renewal / clear / emptying Write that follows races with the immediate firing like any other",
+			"Upgrader.KeepaliveTime = 0 means keep-alive is disabled on the WebSocket connection (read off Upgrade: it clears the read deadline then, and handleWsMessage never re-arms): once the upgrade exchange is complete no deadline exists, every firing of the connection's read timer is stale (keepalive-close-while-disabled) and 'open at the end' is the expected outcome. With a positive value the deadline after the upgrade is upgrade + that value, whether it is smaller or larger than the HTTP keep-alive time",
+			"early first request: when the client's first request is in the socket before the connection is handed to AddConnNonTLSNonBlocking, the order 'request handled, then accept-time arming' is possible; the model does not care about the order - the last activity is the handled request (same virtual instant as the accept), so the deadline must be the one that follows from it. The cause is named in the signature (accept-arming-overrides-upgrade-deadline) only when the harness saw, on return of the call, a read timer armed for something else than the model's deadline",
 			"not judged here: number of close notifications and errors returned by calls on a closed connection (C03), byte stream contents (C01), buffer ownership (C11; a fresh tracking allocator is installed per execution for isolation)",
 		},
 		Build: build, QuickBudget: 45 * time.Second, ThoroughBudget: 6 * time.Minute, MinNonTrivial: 300,
